@@ -27,8 +27,7 @@ Representation.
   (patches/C17-0x): `fixPar` (ParallelAction keeps a child result that arrives while paused and
   replays it on resume), `fixReplay` (SerialAssembleAction tracks and cancels the re-posted
   held-back result), `fixFin` (a composite that finishes by its own timeout stops its children), `fixBlk` (stop()
-  withdraws a queued block notification; a repeated block() replaces the queued one), `fixRep`
-  (RepeatAction with times = 0 finishes at once instead of computing `times - 1` in size_t).
+  withdraws a queued block notification; a repeated block() replaces the queued one).
   The driver runs the repaired configuration; the `…_counterexample` theorems run the old one.
 -/
 namespace Tbox.C17
@@ -115,7 +114,6 @@ structure Cfg where
   fixReplay : Bool := true
   fixFin : Bool := true
   fixBlk : Bool := true
-  fixRep : Bool := true
 deriving DecidableEq, Repr
 
 /-- what the user of the tree can see happening -/
@@ -397,14 +395,13 @@ def ifThenDoStart (d : Node) (n : Nat) : Next :=
   if d.index ≥ n / 2 then .finish false 10 else .start (2 * d.index) [] none
 
 /-- the `onStart` of the serial composites; `n` = number of children -/
-def serialStart (cfg : Cfg) (d : Node) (n : Nat) : Node × Next :=
+def serialStart (_cfg : Cfg) (d : Node) (n : Nat) : Node × Next :=
   match d.kind with
   | .seq _ => (d, seqStartOrFinish d n true 0)
   | .ifThen => let d := { d with index := 0 }; (d, ifThenDoStart d n)
   | .repeat_ times _ =>
-      -- (repaired) times == 0: finish(true, RepeatNoTimes) without running the child
-      if times == 0 && cfg.fixRep then (d, .finish true 7) else
-      -- remain_times_ = repeat_times_ - 1  (size_t: 0 - 1 wraps)
+      -- remain_times_ = repeat_times_ - 1  (size_t: 0 - 1 wraps: times = 0 repeats "for ever", which is what
+      -- the unit test RepeatAction.FunctionActionForeverNoBreak relies on)
       ({ d with remainTimes := if times == 0 then 2^64 - 1 else times - 1 }, .start 0 [] none)
   | _ => (d, .start 0 [] none)
 
